@@ -802,17 +802,17 @@ fn u8_bits(v: u8) -> Vec<bool> {
 }
 
 /// compiles the text and evaluates it: None if the program is rejected, else (panic flag, the 20 output values)
-pub fn run_real(src: &str, a0: u8, a1: u8, flag: bool) -> Option<Result<(bool, Vec<u8>), String>> {
+pub fn run_real(src: &str, a0: u8, a1: u8, flag: bool, n_out: usize) -> Option<Result<(bool, Vec<u8>), String>> {
     let prg = match std::panic::catch_unwind(|| garble_lang::compile(src)) {
         Ok(Ok(p)) => p,
         Ok(Err(_)) => return None,
         Err(_) => return Some(Err("the compiler panicked".to_string())),
     };
     let out = prg.circuit.eval(&[u8_bits(a0), u8_bits(a1), vec![flag]]);
-    if out.len() != 161 + 8 * OUTPUTS {
-        return Some(Err(format!("the circuit has {} output bits, expected {}", out.len(), 161 + 8 * OUTPUTS)));
+    if out.len() != 161 + 8 * n_out {
+        return Some(Err(format!("the circuit has {} output bits, expected {}", out.len(), 161 + 8 * n_out)));
     }
-    let vals = (0..OUTPUTS).map(|k| out[161 + 8 * k..161 + 8 * k + 8].iter().fold(0u8, |a, b| (a << 1) | (*b as u8))).collect();
+    let vals = (0..n_out).map(|k| out[161 + 8 * k..161 + 8 * k + 8].iter().fold(0u8, |a, b| (a << 1) | (*b as u8))).collect();
     Some(Ok((out[0], vals)))
 }
 
@@ -1033,7 +1033,7 @@ pub fn replay(text: &str) -> i32 {
     let parts: Vec<&str> = input.split_whitespace().collect();
     let (a0, a1, flag): (u8, u8, bool) = (parts[0].parse().unwrap(), parts[1].parse().unwrap(), parts[2] == "true");
     let want: Vec<u8> = expected.split_whitespace().map(|x| x.parse().unwrap()).collect();
-    match run_real(src, a0, a1, flag) {
+    match run_real(src, a0, a1, flag, want.len()) {
         None => { println!("the program is rejected by the compiler"); 0 }
         Some(Err(e)) => { println!("reproduced: {e}"); 3 }
         Some(Ok((panic, got))) => {
